@@ -66,11 +66,26 @@ pub mod alloc_probe {
 
 /// `verif::reset()`, then switch the load/strategy recorder off when VERIF_NOTRACE is set
 /// (the recorder allocates; allocation-probe runs must not see that).
+pub fn notrace() -> bool {
+    static NOTRACE: std::sync::OnceLock<bool> = std::sync::OnceLock::new();
+    *NOTRACE.get_or_init(|| std::env::var_os("VERIF_NOTRACE").is_some())
+}
+
 pub fn vreset() {
     memchr::verif::reset();
-    static NOTRACE: std::sync::OnceLock<bool> = std::sync::OnceLock::new();
-    if *NOTRACE.get_or_init(|| std::env::var_os("VERIF_NOTRACE").is_some()) {
+    if notrace() {
         memchr::verif::set_trace(false);
+    }
+}
+
+/// Run a constructor; under VERIF_NOTRACE its heap allocations are returned (to be added to
+/// the op's count), otherwise 0 (the recorder itself allocates while tracing).
+pub fn measured_build<T>(f: impl FnOnce() -> T) -> (T, u64) {
+    if notrace() {
+        vreset();
+        alloc_probe::measure(f)
+    } else {
+        (f(), 0)
     }
 }
 
